@@ -18,6 +18,7 @@ theorem states what holds.
 import CV.Proofs.StoreQueryTbl
 import CV.Proofs.StoreQueryFoot
 import CV.Proofs.BlockingQuery
+import CV.Proofs.StoreQueryCex
 namespace CV.Store
 open CV
 
@@ -177,6 +178,104 @@ theorem table_index_monotone (q : Query) (hq : q.tableLevel = true) (s : State) 
   case checksInState => exact mono _ stable_checks
   case pqGet => exact mono _ stable_pq
   case pqList => exact mono _ stable_pq
+
+/-! ### the read paths with their own index rows: the full statement and why it is false
+
+FULL STATEMENT (what the property demands of every query `q`, including KVSList, ServiceNodes,
+CheckServiceNodes, NodeServices, Services joined with nodes):
+
+    theorem change_bumps_index (q : Query) (s : State) (m i : Nat) (c : Cmd) (hI : IdxInv m s) (hi : m < i) :
+        (q.run (apply s i c).1).2 ≠ (q.run s).2 → (q.run s).1 < (q.run (apply s i c).1).1
+    theorem change_fires_watch' … → q.fired s (apply s i c).1 = true
+    theorem index_monotone (c not a reap) : (q.run s).1 ≤ (q.run (apply s i c).1).1
+
+It is FALSE for the code as it is. Each theorem below exhibits a reachable state (the `…_reached` lemmas of
+CV.Proofs.StoreQueryCex replay the history from the empty store), satisfying `IdxInv`, and one command at a
+larger index after which the result differs while the index does not move up (and, for the
+watch-optimised CheckServiceNodes, no watched row changes). The same histories are replayed against the
+real store by the harness on every run (recorded findings of known_findings.txt). -/
+
+/-- the witness states satisfy the hypotheses of the full statement -/
+theorem witnesses_satisfy_idx_inv :
+    IdxInv 10 wRename ∧ IdxInv 10 wShort ∧ IdxInv 10 wJoin ∧ IdxInv 20 wTree ∧ IdxInv 18 wNul := by
+  refine ⟨?_, ?_, ?_, ?_, ?_⟩
+  · rw [← wRename_reached]; exact idx_inv_step _ 0 10 _ idx_inv_empty (by omega)
+  · rw [← wShort_reached]; exact idx_inv_step _ 0 10 _ idx_inv_empty (by omega)
+  · rw [← wJoin_reached]; exact idx_inv_step _ 0 10 _ idx_inv_empty (by omega)
+  · rw [← wTree_reached]
+    exact idx_inv_step _ 12 20 _ (idx_inv_step _ 10 12 _ (idx_inv_step _ 0 10 _ idx_inv_empty (by omega)) (by omega)) (by omega)
+  · rw [← wNul_reached]
+    exact idx_inv_step _ 16 18 _ (idx_inv_step _ 0 16 _ idx_inv_empty (by omega)) (by omega)
+
+/-- Finding `catalog:instance-renamed-in-place`: `register n1 {id web, name web} @10` then
+    `register n1 {id web, name db} @12`: ServiceNodes("web") loses its only instance, the index stays 10;
+    CheckServiceNodes("web") likewise, and the only row it watches (`service.web`) does not change. -/
+theorem service_rename_counterexample :
+    let s := wRename
+    let s' := (apply s 12 regWebAsDb).1
+    ((Query.serviceNodes "web").run s').2 ≠ ((Query.serviceNodes "web").run s).2 ∧
+    ((Query.serviceNodes "web").run s').1 = ((Query.serviceNodes "web").run s).1 ∧
+    ((Query.csn "web").run s').2 ≠ ((Query.csn "web").run s).2 ∧
+    ((Query.csn "web").run s').1 = ((Query.csn "web").run s).1 ∧
+    (Query.csn "web").fired s s' = false := by
+  simp only [wRename2_reached]
+  have h := rename_run
+  refine ⟨?_, ?_, rename_csn.1, rename_csn.2.1, rename_csn.2.2⟩
+  · rw [h.1, h.2]; simp
+  · rw [h.1, h.2]
+
+/-- Finding `catalog:node-services:name-shorter-than-2`: `register m @10`, `deregister m @12`:
+    NodeServices("m") goes from (10, node m) to (0, nothing) — the result changes and the index goes DOWN. -/
+theorem node_services_short_name_counterexample :
+    let s := wShort
+    let s' := (apply s 12 deregM).1
+    ((Query.nodeServices "m").run s').2 ≠ ((Query.nodeServices "m").run s).2 ∧
+    ((Query.nodeServices "m").run s').1 < ((Query.nodeServices "m").run s).1 := by
+  simp only [wShort2_reached]
+  have h := short_run
+  rw [h.1, h.2]; simp
+
+/-- Finding `catalog:services-joined-with-nodes`: `register m(addr .2) + web @10`, `register m(addr .1) @12`:
+    the joined listing changes (node address), the index (services table) stays 10. -/
+theorem services_joined_counterexample :
+    let s := wJoin
+    let s' := (apply s 12 regMaddr).1
+    ((Query.servicesJoin).run s').2 ≠ ((Query.servicesJoin).run s).2 ∧
+    ((Query.servicesJoin).run s').1 = ((Query.servicesJoin).run s).1 := by
+  simp only [wJoin2_reached]
+  have h := join_run
+  rw [h.1, h.2]; simp
+
+/-- Finding `kv:list:delete-tree-above-list-prefix`: `set a/b @10; set a/bc @12; delete a/b @20`, then
+    `delete-tree "a" @22`: KVSList("a/") goes from {a/bc} to {} and the index stays 20 (the tombstone left by
+    the tree delete is on "a", outside the list prefix; the older tombstone of a/b is inside). -/
+theorem kv_list_delete_tree_counterexample :
+    let s := wTree
+    let s' := (apply s 22 (.kvDeleteTree [97])).1
+    ((Query.kvList [97, 47]).run s').2 ≠ ((Query.kvList [97, 47]).run s).2 ∧
+    ((Query.kvList [97, 47]).run s').1 = ((Query.kvList [97, 47]).run s).1 := by
+  simp only [wTree2_reached, Query.run]
+  have h := tree_run
+  rw [h.1, h.2]; simp
+
+/-- Finding `kv:list:prefix-with-leading-NUL`: `set "\x00a" @16; set "\x00ab" @18`, then `delete "\x00ab" @22`:
+    KVSList("\x00a") changes and its index goes from 18 DOWN to 16 (the graveyard lookup trims the NUL and
+    misses the tombstone). -/
+theorem kv_list_leading_nul_counterexample :
+    let s := wNul
+    let s' := (apply s 22 (.kvDelete [0, 97, 98])).1
+    ((Query.kvList [0, 97]).run s').2 ≠ ((Query.kvList [0, 97]).run s).2 ∧
+    ((Query.kvList [0, 97]).run s').1 < ((Query.kvList [0, 97]).run s).1 := by
+  simp only [wNul2_reached, Query.run]
+  have h := nul_run
+  refine ⟨?_, by rw [h.1, h.2.1]; omega⟩
+  intro e; exact h.2.2 (by simpa using e)
+
+/- Findings `catalog:check-rebound-to-another-service` and `catalog:check-row-keeps-old-service-name` need two
+   services on one node; their witnesses (`reg n1 web + c2 on web; reg n1 db; reg n1 c2 on db` and
+   `reg n1 web + c2 on web; reg n1 {id web, name db}; dereg check c2`) are replayed against the real store
+   and against the model driver on every run (exhaustive catalog words of the harness); the model agrees
+   line by line. -/
 
 /-! ### watch footprints -/
 
